@@ -107,6 +107,10 @@ func TestC05Perm(t *testing.T) {
 			tags = append(tags, "foreign-id")
 		}
 		sc := c05Scenario(kinds, envs, foreign)
+		if idx%4 == 2 {
+			sc.Acts = sprinkleTicks(rand.New(rand.NewSource(int64(idx)+*flagSeed)), sc.Acts, 3)
+			tags = append(tags, "ticks")
+		}
 		sc.Tags = tags
 		if want(idx) && idx%nsh == shard {
 			runClientScenarioAs(t, idx, "c05-perm", sc, em, "C05Step", nil)
@@ -484,6 +488,9 @@ func TestC09(t *testing.T) {
 						}
 					}
 					acts = append(acts, CAct{Op: "unary", B: 13}, CAct{Op: "stream"})
+					if idx%3 == 1 {
+						acts = sprinkleTicks(rand.New(rand.NewSource(int64(idx)+*flagSeed)), acts, 3)
+					}
 					sc := clientScenario{Acts: acts, WithStats: idx%5 == 0,
 						Tags: []string{"base:" + b.name, fmt.Sprintf("prefix=%d", p), fmt.Sprintf("writes-fail=%v", wf), "parked:" + park}}
 					if want(idx) && idx%nsh == shard {
@@ -567,6 +574,10 @@ func TestC13(t *testing.T) {
 			if st {
 				acts = append(acts, CAct{Op: "recv", C: c}, CAct{Op: "trailer", C: c})
 			}
+		}
+		if idx%4 == 1 {
+			acts = sprinkleTicks(rr, acts, 3)
+			tags = append(tags, "ticks")
 		}
 		sc := clientScenario{Acts: acts, WithStats: idx%2 == 0, Tags: append(tags, fmt.Sprintf("len=%d", len(seq)), fmt.Sprintf("stats=%v", idx%2 == 0))}
 		if want(idx) {
@@ -666,6 +677,9 @@ func TestC13(t *testing.T) {
 			next++
 		}
 		acts = append(acts, CAct{Op: "failread"})
+		if idx%2 == 1 {
+			acts = sprinkleTicks(rr, acts, 3)
+		}
 		sc := clientScenario{Acts: acts, WithStats: idx%2 == 0, Tags: []string{kn[ki], "then-new-calls"}}
 		if want(idx) {
 			runClientScenarioAs(t, idx, "c13", sc, em, "C13Step", nil)
